@@ -1,7 +1,7 @@
 use std::borrow::Cow;
 
 use proc_macro2::TokenStream;
-use quote::{quote, quote_spanned, ToTokens, TokenStreamExt};
+use quote::{format_ident, quote, quote_spanned, ToTokens, TokenStreamExt};
 use syn::{spanned::Spanned, Ident, Type};
 
 use crate::codegen::{DefaultExpression, PostfixTransform};
@@ -72,6 +72,13 @@ impl<'a> Field<'a> {
     pub fn as_presence_check(&'a self) -> CheckMissing<'a> {
         CheckMissing(self)
     }
+
+    /// The local variable that counts how many times the name of a `multiple`
+    /// field has been seen, so that errors can report the index of the occurrence.
+    fn occurrence_counter(&self) -> Ident {
+        // `format_ident!` drops the `r#` of a raw identifier.
+        format_ident!("__{}_count", self.ident)
+    }
 }
 
 impl UsesTypeParams for Field<'_> {
@@ -99,6 +106,14 @@ impl ToTokens for Declaration<'_> {
         } else {
             quote!(let mut #ident: (bool, ::darling::export::Option<#ty>) = (false, None);)
         });
+
+        // A field that takes multiple values additionally counts the occurrences of its
+        // name, so that an error can be located at the index of the occurrence it came from.
+        // Skipped and flattened fields have no match arm, so they never use the counter.
+        if field.multiple && !field.skip && !field.flatten {
+            let counter = field.occurrence_counter();
+            tokens.append_all(quote!(let mut #counter: usize = 0;));
+        }
 
         // The flatten field additionally needs a place to buffer meta items
         // until attribute walking is done, so declare that now.
@@ -166,10 +181,9 @@ impl ToTokens for MatchArm<'_> {
         // Fields that take multiple values add the index of the error for convenience,
         // while single-value fields only expose the name in the input attribute.
         let location = if field.multiple {
-            // we use the local variable `len` here because location is accessed via
-            // a closure, and the borrow checker gets very unhappy if we try to immutably
-            // borrow `#ident` in that closure when it was declared `mut` outside.
-            quote!(&format!("{}[{}]", #name_str, __len))
+            // we use the local variable `__index` here because location is accessed via
+            // a closure, and by then the counter has already moved on to the next occurrence.
+            quote!(&format!("{}[{}]", #name_str, __index))
         } else {
             quote!(#name_str)
         };
@@ -189,11 +203,14 @@ impl ToTokens for MatchArm<'_> {
         );
 
         tokens.append_all(if field.multiple {
+                let counter = field.occurrence_counter();
                 quote!(
                     #name_str => {
                         // Store the index of the name we're assessing in case we need
-                        // it for error reporting.
-                        let __len = #ident.len();
+                        // it for error reporting. This counts every occurrence of the name,
+                        // including those whose value was rejected and therefore not pushed.
+                        let __index = #counter;
+                        #counter += 1;
                         if let ::darling::export::Some(__val) = __errors.handle(#extractor) {
                             #ident.push(__val)
                         }
